@@ -21,12 +21,13 @@ LEVEL = "exploration"
 ENGINE = "PEX"
 TECHNIQUE = "three-way differential: if_/3 vs explicit (=, dif) disjunction vs Python truth table, by ground completion"
 RULE = ("all conditions A=B, dif(A,B) and (C1,C2), (C1;C2) of atomic C1, C2 over A,B in {X,Y,a,b,f(X),f(a)} "
-        "(quick: compounds over {X,Y,a,f(X)}), x 17 pre-binding patterns (X,Y each free/a/b/f(a), or X=Y); "
+        "(quick: compounds over {X,Y,a,f(X)}), x 18 pre-binding patterns (X,Y each free/a/b/f(a), X=Y, X=f(Y)); "
         "reified =/3, dif/3 with T free/true/false; tfilter, tpartition, memberd_t, tmember over all lists of "
-        "length <= 3 over {a,b,X,Y}. Non-trivial: a variable of the condition/list is unbound at call time.")
+        "length <= 3 over {a,b,X,Y,f(X)}; besides the ground completions the multiset of answers (branch outcome, whether "
+        "the binding is a rational tree) is compared with the explicit twin. Non-trivial: a variable of the condition/list is unbound at call time.")
 LEVEL_TEXT = ("bounded exhaustive input-space exploration; every answer (bindings + residual dif/2) is compared "
               "semantically through all its ground completions, so residual constraints are part of the comparison")
-ASSUMPTIONS = ["findall/3, member/2, catch/3", "Python structural equality of ground terms",
+ASSUMPTIONS = ["findall/3, member/2, catch/3, copy_term/3 + acyclic_term/1 on a copy (rational-tree test)", "Python structural equality of ground terms",
                "conditions that would build cyclic terms (X = f(X)) are included; a cyclic binding has no ground completion"]
 MIN_OUTCOMES = 4
 
@@ -43,6 +44,10 @@ HELPERS = r"""
 
 c54_m(V) :- member(V, [a, b, f(a), f(b)]).
 c54_run(T, G, L) :- catch(findall(T, G, L), E, c54_err(E, L)).
+% is the answer's binding of Vars a rational tree?  (tested on an attribute-free copy, so the
+% original and its constraints are untouched)
+c54_cyc(Vars, F) :- ( \+ \+ ( copy_term(Vars, C, _), acyclic_term(C) ) -> F = acyclic ; F = cyclic ).
+c54_len(L, N) :- length(L, N).
 c54_err(E, L) :- ( nonvar(E), E = error(F, _) -> L = exc(F) ; L = exc(ball(E)) ).
 
 % explicit twins written with (=)/2 and dif/2 only
@@ -61,7 +66,7 @@ c54_dif_t(A, B, T) :- ( dif(A, B), T = true ; A = B, T = false ).
 
 
 def bound_text(tier):
-    return ("conditions of depth <= 2 over %d terms (compounds over %d terms), 17 pre-binding patterns; "
+    return ("conditions of depth <= 2 over %d terms (compounds over %d terms), 18 pre-binding patterns; "
             "lists of length <= 3 over {a,b,X,Y}" % (len(TERMS_FULL), len(TERMS_FULL) if tier == "thorough" else len(TERMS_Q)))
 
 
@@ -85,11 +90,12 @@ def conds(tier):
 def prebinds():
     out = [{"X": x, "Y": y} for x in PRE_VALS for y in PRE_VALS]
     out.append({"alias": True})
+    out.append({"X": ("f", Y), "Y": None})   # Y = f(X) then has only a rational-tree unifier
     return out
 
 
 def lists3():
-    el = ["a", "b", X, Y]
+    el = ["a", "b", X, Y, ("f", X)]
     out = []
     for n in range(0, 4):
         for t in itertools.product(el, repeat=n):
@@ -195,9 +201,14 @@ def truth(c, env):
 def groundings(pb):
     if pb.get("alias"):
         return [{"X": u, "Y": u} for u in U]
-    xs = [tup(pb["X"])] if pb.get("X") is not None else U
     ys = [tup(pb["Y"])] if pb.get("Y") is not None else U
-    return [{"X": x, "Y": y} for x in xs for y in ys]
+    out = []
+    for y in ys:
+        xs = [subst(tup(pb["X"]), {"Y": y})] if pb.get("X") is not None else U
+        for x in xs:
+            if x in U:          # the completion goal enumerates both variables over U
+                out.append({"X": x, "Y": y})
+    return out
 
 
 def cond_vars(c, acc=None):
@@ -213,7 +224,10 @@ def cond_vars(c, acc=None):
 def free_vars(pb):
     if pb.get("alias"):
         return {"X", "Y"}
-    return {n for n in ("X", "Y") if pb.get(n) is None}
+    fv = {n for n in ("X", "Y") if pb.get(n) is None}
+    if pb.get("X") is not None and cond_vars(("t", tup(pb["X"]))):
+        fv.add("Y")
+    return fv
 
 
 def mklist_py(el):
@@ -224,6 +238,9 @@ def mklist_py(el):
 # ---------------------------------------------------------------------------
 # cases: each is a dict(kind=..., ...) that is JSON-able; build() gives
 # (goal text, expected multiset as sorted list of tuples, nontrivial)
+
+COMPLETE = ", c54_m(X), c54_m(Y)"
+
 
 def build(case):
     k = case["kind"]
@@ -297,7 +314,20 @@ def build(case):
                     exp.append(("yes", e["X"], e["Y"]))
         else:
             raise ValueError(k)
-    goal = "g((c54_run(%s, (%s), L1), c54_run(%s, (%s), L2)))" % (templ, g1, templ, g2)
+    # answer-level comparison (no ground completion): branch outcome + is the binding a rational tree
+    atempl, asuffix = {
+        "if": ("[R,Cy]", "c54_cyc(X-Y,Cy)"),
+        "reif": ("[T,Cy]", "c54_cyc(X-Y,Cy)"),
+        "tfilter": ("[N,Cy]", "c54_len(O,N), c54_cyc(X-Y,Cy)"),
+        "tpartition": ("[N1-N2,Cy]", "c54_len(O1,N1), c54_len(O2,N2), c54_cyc(X-Y,Cy)"),
+        "memberd_t": ("[T,Cy]", "c54_cyc(X-Y,Cy)"),
+        "tmember": ("[yes,Cy]", "c54_cyc(X-Y,Cy)"),
+    }[k]
+    assert g1.endswith(COMPLETE) and g2.endswith(COMPLETE)
+    a1 = g1[:-len(COMPLETE)] + ", " + asuffix
+    a2 = g2[:-len(COMPLETE)] + ", " + asuffix
+    goal = ("g((c54_run(%s, (%s), L1), c54_run(%s, (%s), L2), c54_run(%s, (%s), A1), c54_run(%s, (%s), A2)))"
+            % (templ, g1, templ, g2, atempl, a1, atempl, a2))
     return goal, sorted(exp, key=repr), nt, g1
 
 
@@ -383,6 +413,24 @@ def cmp_kind(exp, obs, need_exact):
     return None
 
 
+def answers_kind(a1, a2):
+    for side, a in (("reif", a1), ("twin", a2)):
+        if isinstance(a, tuple) and a and a[0] == "exc":
+            return "%s-exception:%s" % (side, a[1])
+    if a1 == a2:
+        return None
+    from collections import Counter
+    c1, c2 = Counter(a1), Counter(a2)
+    lost, extra = c2 - c1, c1 - c2
+    def cls(c):
+        return "+".join(sorted({"cyclic" if x[-1] == "cyclic" else "acyclic" for x in c}))
+    if lost and not extra:
+        return "reif-lacks-%s-answer" % cls(lost)
+    if extra and not lost:
+        return "reif-has-extra-%s-answer" % cls(extra)
+    return "different-branches"
+
+
 def judge(case, res):
     goal, exp, nt, g1 = build(case)
     viols = []
@@ -399,6 +447,12 @@ def judge(case, res):
     k2 = cmp_kind(exp, l2, False)
     if k2:
         viols.append(("%s explicit-side %s" % (shape(case), k2), show(l2)))
+    # answers of the reif side vs answers of the explicit twin, as multisets of (branch outcome, cyclic?)
+    a1 = conv(res.sols[0]["A1"])
+    a2 = conv(res.sols[0]["A2"])
+    ka = answers_kind(a1, a2)
+    if ka:
+        viols.append(("%s answers-vs-explicit-twin %s" % (shape(case), ka), "reif=%s twin=%s" % (show(a1), show(a2))))
     vals = [e[0] for e in exp]
     if not exp:
         label = "no-answers"
@@ -407,6 +461,8 @@ def judge(case, res):
         label = "%s:%s%s" % (case["kind"], "+".join(ks), "/residual" if nt and len(exp) > 1 else "")
     else:
         label = "%s:%d-groundings" % (case["kind"], len(exp))
+    if not isinstance(a2, tuple) and any(x[-1] == "cyclic" for x in a2):
+        label += "/rational-tree-answer"
     return label, viols, exp, nt, g1
 
 
